@@ -679,8 +679,8 @@ fn main() {
         logged: 0, triple: true, seq: 0, bulk_n: 0, bulk_ok: 0, bulk_err: 0, bulk_panic: 0, panics: Vec::new(),
     };
     // how many derived inputs are logged individually (validated event by event by TLC)
-    let mut trunc_log_budget: i64 = if thorough { 9_000 } else { 300 };
-    let mut mut_log_budget: i64 = if thorough { 4_000 } else { 100 };
+    let mut trunc_log_budget: i64 = if thorough { 5_000 } else { 300 };
+    let mut mut_log_budget: i64 = if thorough { 2_000 } else { 100 };
     let muts_per_vec = if thorough { 6 } else { 2 };
 
     let stdin = std::io::stdin();
@@ -734,7 +734,7 @@ fn main() {
         let is_canonical_vec = vec["id"][2] == 0 && vec["id"][3] == 1;
 
         // direction A
-        tr.triple = is_canonical_vec || thorough;
+        tr.triple = is_canonical_vec || (thorough && class != "canon");
         let got = tr.event(&proto, "vec", &entry, ord, &uuid, &data, is_canonical_vec || class != "canon" || thorough);
         tr.triple = true;
         let mism = compare(&vec, &got);
@@ -790,7 +790,7 @@ fn main() {
 
     // direction B: random inputs. (a) random bodies behind a valid identifier, (b) random bytes.
     let n_rand = if thorough { 40 } else { 6 };
-    let mut rand_log_budget: i64 = if thorough { 3_000 } else { 120 };
+    let mut rand_log_budget: i64 = if thorough { 2_000 } else { 120 };
     for (entry, ord, uuid, data) in canon_seen.iter() {
         for _ in 0..n_rand {
             let len = rng.gen_range(0..(data.len() * 2 + 4));
@@ -822,7 +822,7 @@ fn main() {
         }
     }
     let n_pure = if thorough { 20_000 } else { 2_000 };
-    let mut pure_log_budget: i64 = if thorough { 2_000 } else { 60 };
+    let mut pure_log_budget: i64 = if thorough { 1_000 } else { 60 };
     for i in 0..n_pure {
         let len = rng.gen_range(0..40);
         let entry = if i % 3 == 2 { "connless" } else { "msg" };
